@@ -62,10 +62,11 @@ GATES = {
     "tree-shapes": {"quick": _shape_gate(5) + ["shape:" + rt.shape_key(s) for s in (rt.all_shapes(8)[0], rt.all_shapes(8)[-1])], "thorough": _shape_gate(8)},
     "tamper-classes": ["tamper:" + t for t in TAMPERS],
     "tamper-rejections": ["tamper-rejected:" + t for t in TAMPERS if t != "script-push-reencoded"],
-    "script-lengths": ["scriptlen:1", "scriptlen:<253", "scriptlen:253", "scriptlen:>253", "scriptlen:>=520"],
+    "script-lengths": ["scriptlen:0", "scriptlen:1", "scriptlen:<253", "scriptlen:253", "scriptlen:>253", "scriptlen:>=520"],
     "leaf-versions": ["leafversion:c0", "leafversion:other"],
     "memo": ["memo:populated-checked"],
     "no-tree": ["tweak:empty-merkle-root"],
+    "repository-tests-under-contracts": {"quick": [], "thorough": ["repotests:run"]},
 }
 
 _state = {"branches": []}
@@ -162,7 +163,7 @@ def post_leaf_hash(args, kwargs, pre, out):
     if out[1] != exp:
         ctx.violation("leaf-hash-wrong:" + ("script>=253" if len(raw) >= 253 else "script<253"), f"got {out[1].hex()} expected {exp.hex()}", case)
     n = len(raw)
-    ctx.count("scriptlen:1" if n == 1 else "scriptlen:<253" if n < 253 else "scriptlen:253" if n == 253 else "scriptlen:>253")
+    ctx.count("scriptlen:0" if n == 0 else "scriptlen:1" if n == 1 else "scriptlen:<253" if n < 253 else "scriptlen:253" if n == 253 else "scriptlen:>253")
     if n >= 520:
         ctx.count("scriptlen:>=520")
     ctx.count("leafversion:c0" if v == 0xC0 else "leafversion:other")
@@ -510,6 +511,8 @@ LEAF_VERSIONS = [0xC0, 0xC0, 0xC0, 0xC2, 0xFA, 0x66, 0x02, 0xFE, 0x00]
 def _gen_commands(rng, target_len, uniq):
     """A command list whose serialisation has exactly target_len bytes (pushes avoid the lengths the
     library serialiser refuses); `uniq` (bytes) makes sibling leaves distinct when it fits."""
+    if target_len == 0:
+        return []
     if target_len == 1:
         return [rng.choice([0x51, 0x52, 0xAC, 0x87, 0x00, 0x75])]
     cmds = []
@@ -619,13 +622,17 @@ def catalogue(tier, seed):
         extra = []
         for n in range(1, 6):
             extra += rt.all_shapes(n)
-        shapes += extra
+        shapes += extra + [None] * 31  # single-leaf trees (33-byte control blocks) with every script-length class
     return shapes
 
 
 def shards(tier, seed):
-    n = 16
-    return [{"name": "trees", "idx": i, "n": n, "budget_s": 900 if tier == "quick" else 5400} for i in range(n)]
+    # 16 processes in both tiers: thorough = the repository's test module under the contracts + 15 workload shards
+    n = 16 if tier == "quick" else 15
+    out = [{"name": "trees", "idx": i, "n": n, "budget_s": 900 if tier == "quick" else 10800, "hard_timeout_s": 1500 if tier == "quick" else 14000} for i in range(n)]
+    if tier == "thorough":
+        out.insert(0, {"name": "repotests", "idx": 0, "n": 1, "budget_s": 10800, "hard_timeout_s": 14000, "modules": ["buidl.test.test_taproot"]})
+    return out
 
 
 # ---- the commitment decision the library makes for (control block bytes, script bytes) -----------------
@@ -720,13 +727,17 @@ def tamper_catalogue(ctx, rng, cb_bytes, script_raw, cmds, q_xonly, other_script
     tamper_one(ctx, "cb-truncated", cb_bytes[:rng.randrange(1, len(cb_bytes))], script_raw, q_xonly, orig)
     # leaf script bytes
     n = len(script_raw)
-    spos = list(range(n)) if (every_byte and n <= 64) else sorted({0, n - 1, rng.randrange(n), rng.randrange(n), rng.randrange(n), rng.randrange(n)})
+    if n == 0:
+        spos = []
+    else:
+        spos = list(range(n)) if (every_byte and n <= 64) else sorted({0, n - 1, rng.randrange(n), rng.randrange(n), rng.randrange(n), rng.randrange(n)})
     for k, pos in enumerate(spos):
         tamper_one(ctx, "script-byte", cb_bytes, alt(script_raw, pos, k % 2), q_xonly, orig)
     tamper_one(ctx, "script-appended", cb_bytes, script_raw + bytes([rng.choice([0x00, 0x51, 0x61, 0x75])]), q_xonly, orig)
     if n > 1:
         tamper_one(ctx, "script-truncated", cb_bytes, script_raw[:-1], q_xonly, orig)
-    tamper_one(ctx, "script-truncated", cb_bytes, b"", q_xonly, orig)
+    if n > 0:
+        tamper_one(ctx, "script-truncated", cb_bytes, b"", q_xonly, orig)
     tamper_one(ctx, "other-leaf-script", cb_bytes, other_script, q_xonly, orig)
     # same commands, different bytes: a direct push re-encoded with OP_PUSHDATA1 (one inserted byte)
     off = 0
@@ -754,6 +765,8 @@ def one_tree(ctx, rng, shape, serial, tier):
     leaves = []
     for i in range(nleaves):
         length = SCRIPT_LENGTHS[(serial + i) % len(SCRIPT_LENGTHS)] if (i == 0 or rng.random() < 0.3) else rng.choice([1, 2, 34, 35, 74])
+        if i == 0 and nleaves <= 2 and serial % 3 == 0:
+            length = 0  # the empty script is a leaf script too
         if length == 1 and nleaves > 1 and i > 0:
             length = 2 + i  # one-byte scripts cannot all be distinct
         leaves.append(_gen_leaf(rng, serial * 16 + i, length, None if rng.random() < 0.4 else 0xC0))
@@ -861,10 +874,29 @@ def duplicate_leaf_case(ctx, rng, serial):
     check_memo(ctx)
 
 
+def _run_repo_tests(ctx, names):
+    """Thorough tier only: the repository's own test modules executed under the installed contracts
+    (an additional workload; a failing test is noted, never a verdict by itself)."""
+    import io
+    import unittest
+
+    from vmon.core import Quiet
+
+    suite = unittest.defaultTestLoader.loadTestsFromNames(names)
+    with Quiet():
+        res = unittest.TextTestRunner(stream=io.StringIO(), verbosity=0).run(suite)
+    ctx.note("repotests", {"modules": names, "run": res.testsRun, "failures": len(res.failures), "errors": len(res.errors), "skipped": len(res.skipped),
+                           "not-passing": [str(t[0]) for t in (res.failures + res.errors)][:12]})
+    ctx.count("repotests:run", res.testsRun)
+
+
 def run_shard(desc, ctx):
     ec.selfcheck()
     rt.selfcheck()
     install()
+    if desc["name"] == "repotests":
+        _run_repo_tests(ctx, desc["modules"])
+        return
     idx, n = desc["idx"], desc["n"]
     cat = catalogue(ctx.tier, ctx.seed)
     for serial, shape in enumerate(cat):
